@@ -36,6 +36,7 @@ def run(run):
         sr.handle_message_impl(run, f)
         sr.one_consumer(run, f, lc)
         sr.stop_marker(run, f, sp)
+        sr.stop_marker_ends_loop(run, lc, rule="O1.6")
         c07.no_strong_across_select(run, lc)     # O1.7
 
 
